@@ -59,7 +59,19 @@ def check_calculate_index(prop, res, repo):
     fn = ci.node
     p0 = [p for p in ci.params if p != "self"][0]
     # first use of the start parameter must be its own normalisation through absindex(p, len(self.candles))
-    loads = sorted((n for n in ast.walk(fn) if isinstance(n, ast.Name) and n.id == p0 and isinstance(n.ctx, ast.Load)), key=lambda n: (n.lineno, n.col_offset))
+    def _in_order(node):
+        """nodes in evaluation order (statement by statement; the value of an assignment before its targets): positions are not
+        used, substituted sub-trees carry the line of where they came from"""
+        if isinstance(node, ast.Assign):
+            yield from _in_order(node.value)
+            for t in node.targets:
+                yield from _in_order(t)
+            return
+        yield node
+        for c in ast.iter_child_nodes(node):
+            yield from _in_order(c)
+
+    loads = [n for st_ in fn.body for n in _in_order(st_) if isinstance(n, ast.Name) and n.id == p0 and isinstance(n.ctx, ast.Load)]
     _defs = {}
     for _n in ast.walk(fn):
         if isinstance(_n, ast.Assign) and len(_n.targets) == 1 and isinstance(_n.targets[0], ast.Name):
@@ -133,8 +145,10 @@ def run(repo, tier) -> Result:
         res.fail("R-PURGE", finding("C14", "R-PURGE", fn, fn.node, f"{why}; helper series exist down to depth {need} (e.g. TSI's second smoothing), so purge leaves entries behind that the next calculate() picks up as stale values", construct=f"purge name set depth {depth} < {need}"))
     eff = Effects(repo)
     if fn.name != "purge":
+        from ..ownership import lasting_effect_sites
+
         if eff.effect(fn):
-            for root, node, w in eff.effect_sites(fn)[:2]:
+            for root, node, w in lasting_effect_sites(repo, eff, fn)[:2]:
                 res.fail("R-PURGE", finding("C14", "R-PURGE", fn, node, f"the purge name set is cached on the object ({w}): helpers created after the first call are never purged"))
         else:
             res.ok("R-PURGE", {"site": fn.where, "why": "name collection is stateless"})
